@@ -88,6 +88,14 @@ class MU:
         self.cond = cond
 
 
+class MAlias:
+    """local name bound to a mutable container that lives in a heap field (x = obj.field):
+    reads and in-place mutations through the name go to the heap"""
+    def __init__(self, obj, attr):
+        self.obj = obj
+        self.attr = attr
+
+
 class MExc:
     """exception instance"""
     def __init__(self, cls, args=(), origin=None):
